@@ -158,7 +158,10 @@ CHECKS = {
              "probe days, under holiday / sun-event contexts. Frames.tla (inclusive / wrapping ranges <-> half-open pieces, theorems in "
              "MC_Frames) composed with the paving gives the normal form of 5100 sentences over each real dimension (weekday, month, week, "
              "year): equal to the real normaliser's output on all of them. Gen_RuleMix: sequences combining a closed rule, a span passing "
-             "midnight and a fallback rule, emitted by TLC, go through the real normaliser.",
+             "midnight and a fallback rule, emitted by TLC, go through the real normaliser. Session.tla: 600 (quick) / 12000 (thorough) "
+             "TLC-simulated client programs (parse / clone / with_context / normalize / drop / iterators) on real values: a normalised value "
+             "with a history answers like the same expression built afresh WITHOUT normalisation under the same context (holidays, sun "
+             "events, interval-size bound).",
         note="Trusted: TLC; the library's own evaluation as oracle (differential); sample years instead of all years; 2-D model of a 5-D paving.",
         design_ref="8/C07",
     ),
@@ -207,25 +210,32 @@ CHECKS = {
     ),
     "C12": dict(
         category="model_checking",
-        technique="TLA+ spec PyBinding.tla (constructor decision table M9, zone rule for returned datetimes); TLC checks the table total / deterministic and enumerates the argument space; every case is executed on the real Python extension and on the Rust core for the context the spec names; Trace_PyBinding compares",
+        technique="TLA+ spec PyBinding.tla (constructor decision table M9, zone rule for returned datetimes); TLC checks the table total / deterministic and enumerates the argument space; every case is executed on the real Python extension and on the Rust core for the context the spec names; Trace_PyBinding compares (incl. the Session.tla observations: normalised object, interleaved iterator)",
         text="Gen_PyBinding: timezone x country (valid / lower case / unknown / long) x coords (5 valid incl. pole and antimeridian, out of range, "
              "NaN) x auto_country x auto_timezone ({omitted, None, True, False}) x 7 expressions (valid, invalid, the former panic witness): "
              "3168 cases with the outcome (exception class by precedence, or holidays source + locale kind) the table defines. The driver "
              "(CPython 3.11, extension built from /repo's working tree) constructs each, checks the exception class, validate(), str / repr / "
              "normalize, and queries state / is_* / next_change / intervals (open-ended: None at 10000-01-01; bounded) with naive and aware "
              "datetimes (UTC, Asia/Tokyo, context zone); `ohv core` evaluates the same through the Rust API; TLC requires equality and "
-             "the zone rule (context zone, else input zone, else naive).",
+             "the zone rule (context zone, else input zone, else naive). The object normalize() returns is evaluated too (same context as the "
+             "core's normal form), an intervals() iterator is consumed between other calls (Session.tla seen from Python), and one expression "
+             "changes state inside the hour clocks skip / repeat, asked with aware inputs of Europe/Paris and America/New_York around the change.",
         note="Trusted: PyBinding.tla's reading of lib.rs; zoneinfo; gap/fold inputs are C09's; fixed-offset tzinfo (TypeError today) left open.",
         design_ref="8/C12",
     ),
     "C18": dict(
         category="exploration",
-        technique="TLA+ spec Purity.tla (threads x lazily initialised statics) model checked for single initialisation, no partial read and termination; TLC-enumerated schedule skeletons are each run in a fresh harness process with racing threads and validated by Trace_Purity against a sequential reference",
+        technique="TLA+ spec Purity.tla (threads x lazily initialised statics) model checked for single initialisation, no partial read and termination; TLC-enumerated schedule skeletons are each run in a fresh harness process with racing threads and validated by Trace_Purity against a sequential reference; TLA+ spec Session.tla (values and their histories: Arc-shared expression cells, with_context / normalize / clone / drop, running iterators) model checked exhaustively (HeapImmutable, Frame), client programs simulated by TLC replayed on real values and compared with the same value built afresh",
         text="MC_Purity: all interleavings of 3 threads x 2 calls over 3 statics. Binding: 80 (quick) / 2500 (thorough) of the 3133 skeletons "
              "(2 threads x 2 calls, 3 threads x 1 first use, one 8-thread program), each in a fresh process so that the embedded holiday "
              "databases, country boundaries, time-zone finder / map and the Easter warning latch are initialised under the race; every "
              "response (incl. evaluation of a shared value, of clones interleaved with other expressions, normalisation) must equal the "
-             "sequential single-threaded response; repeated sequential calls must agree.",
+             "sequential single-threaded response; repeated sequential calls must agree. MC_Session: every history over 3 value slots, 2 expressions, 2 contexts, "
+             "1 iterator, 3 allocations (140 469 states): no expression cell is written after allocation, a step changes the abstract value of its "
+             "destination only; 'normalise through the shared pointer' is refuted (non-vacuity). 1200 (quick) / 40000 (thorough) TLC-simulated client "
+             "programs of 16 steps are executed on real values; every value a step yields or inspects and every next() of a running iterator must "
+             "answer (state, is_*, next_change, iter_range, schedule_at, to_string, ==, Hash) like the value (expression, normalised?, context) TLC "
+             "computed for it, built afresh on another thread.",
         note="Real interleavings inside LazyLock/Once are provoked, not controlled; the model assumes std's guarantees (stated in DESIGN.md).",
         design_ref="8/C18",
     ),
